@@ -104,12 +104,16 @@ impl Cfg {
 
     /// Swarm-style random configuration.
     pub fn random(rng: &mut Rng, sync: Option<bool>, backends: &[Backend], freelists: &[u8]) -> Cfg {
-        let cap = match rng.below(10) {
+        let cap = match rng.below(40) {
+            // a few arenas of several pages
+            39 => rng.range(4096, 20000),
+            x => match x % 10 {
             0 => rng.range(64, 128),
             1..=3 => rng.range(128, 320),
             4..=6 => rng.range(256, 768),
             7..=8 => rng.range(512, 2048),
             _ => rng.range(1024, 4096),
+            },
         } as u32;
         Cfg {
             sync: sync.unwrap_or_else(|| rng.chance(1, 2)),
